@@ -196,7 +196,10 @@ def run(ctx):
     if ctx.tier == 'thorough':
         combos += r.sample(list(itertools.permutations(names, 3)), 150)
     else:
-        combos = [c for c in combos if r.random() < 0.45] + [('A', 'B'), ('C', 'D'), ('E', 'I'), ('F', 'I'), ('B', 'A'), ('D', 'C')]
+        combos = [c for c in combos if r.random() < 0.45] + [('A', 'B'), ('C', 'D'), ('E', 'I'), ('F', 'I'), ('B', 'A'), ('D', 'C'), ('C', 'H'), ('G', 'H'), ('A', 'H')]
+    # the references are single-target runs in processes of their own: whatever an earlier scan left in module- or class-level state of THIS
+    # process (a cache, a table edited in place) cannot make the reference wrong in the same way as the multi-target run
+    single.update(mc.isolated_singles([(n, mc.ip_of(i), e) for i in range(3) for n in names for e in ([], ['-j'])]))
     for combo in combos:
         for threads in ((1, 2, 3) if ctx.tier == 'thorough' else (r.choice([1, 1, 2, 3]),)):
             for extra in (([], ['-j']) if ctx.tier == 'thorough' else (r.choice([[], ['-j']]),)):
@@ -334,7 +337,7 @@ def replay(obj):
     for n, ip in zip(inp['targets'], hosts):
         if n in ('J', 'K'):
             continue
-        scode, sout = mc.run_single(n, servers, ip, extra)
+        scode, sout = mc.isolated_singles([(n, ip, extra)])[(n, ip, tuple(extra))]
         if extra:
             try:
                 got = [e for e in json.loads(out) if isinstance(e, dict) and e.get('target') == '%s:22' % ip]
